@@ -199,6 +199,19 @@ def resultsToJson (rs : List (Res α)) : Except String (List (J α)) :=
 
 end numeric
 
+/-! ## batch acceptance (worker_utils.check_request_path_ids, request.correct_json_route_list) -/
+
+/-- in the order `planning` meets them: a request naming an unknown transceiver type → EquipmentConfigError
+(`requests_from_json`); duplicate request ids → ValueError; unknown source/destination transceiver → ServiceError; an
+include node that is not a non-transceiver node of the topology → ServiceError when STRICT (skipped when LOOSE) -/
+def batchCheck (trxKnown : List Bool) (ids : List String) (endpointsKnown : List Bool)
+    (strictUnknownInclude : List Bool) : Option String :=
+  if trxKnown.any (fun b => !b) then some "EquipmentConfigError"
+  else if ids.eraseDups.length ≠ ids.length then some "ValueError"
+  else if endpointsKnown.any (fun b => !b) then some "ServiceError"
+  else if strictUnknownInclude.any id then some "ServiceError"
+  else none
+
 /-! ## requests_aggregation -/
 
 /-- what `compare_reqs` looks at (everything except id, bandwidth, N/M, bidir, cost …) is bundled in `key`;
